@@ -162,6 +162,12 @@ def ext(work, tier, seed):
     for k in ("lines", "distinct", "distinct_nontrivial"):
         stats[k] += stats2[k]
     stats["classes"].update(stats2["classes"])
+    tr3, stats3 = common.vh_gen(work, vh, "ext2", seed, tier)
+    viol3, tstates3, n3 = validate(work, "Trace_Ext", tr3, stats3, procs=6)
+    viol, tstates, n = viol + viol3, tstates + tstates3, n + n3
+    for k in ("lines", "distinct", "distinct_nontrivial"):
+        stats[k] += stats3[k]
+    stats["classes"].update(stats3["classes"])
     for desc, _ in viol[:20]:
         common.log("EXTENDED-MISMATCH " + desc[:500])
     cov = dict(states=tstates, transitions=tstates, traces_validated_against_impl=n, evaluations=stats["lines"], distinct=stats["distinct"],
@@ -170,7 +176,9 @@ def ext(work, tier, seed):
                rule="netboot.GetNetConfFromPacketv6/v4, dhcpv6.ExtractMAC, the DHCPv6 option-container accessors (DNS, search list, boot file URL, "
                     "merged ORO, NTP servers, IsNetboot, IsOptionRequested) and dhcpv4 IsOptionRequested on generated messages with several "
                     "instances of the relevant options; results compared with the operators of spec/Extract.tla; "
-                    "ztpv4/ztpv6 ParseVendorData on vendor strings drawn from the grammar of their case tables (spec/Ztp.tla)")
+                    "ztpv4/ztpv6 ParseVendorData on vendor strings drawn from the grammar of their case tables (spec/Ztp.tla); "
+                    "every typed accessor of the DHCPv6 option containers (message, relay, IA, PD, address, prefix, 4RD), the container "
+                    "operations, the 19 modifiers and NewMessage/NewSolicit/advertise/request/reply with caller modifiers (spec/Dhcp6Mods.tla)")
     common.write_evidence("EXT", tier, seed, cov, 0, 0, ["extended conformance: informational, not part of any property's verdict"])
     common.log("EXT lines=%d mismatches=%d" % (n, len(viol)))
     return 0
